@@ -326,14 +326,17 @@ package tree
 //@   requires n != nil && n.root != nil
 //@   requires [C06] lock-free: lockFree(n.root)
 //@   nopanic
-//@   ensures [C04] rendered: result == methodIndexes[n.methodIndex].methods
+//@   ensures [C04] rendered: seqeq(result, methodIndexes[n.methodIndex].methods)
+//@   ensures [C07] own-copy: len(result) > 0 ==> fresh(result)
 //@   ensures [C06] released: lockFree(n.root)
 //
 //@ fn node.methods
 //@   requires [C06] lock: heldR(n)
 //@   requires n != nil
 //@   nopanic
-//@   ensures [C04] rendered: result == methodIndexes[n.methodIndex].methods
+//@   callsonly [C07] slices.Clone
+//@   ensures [C04] rendered: seqeq(result, methodIndexes[n.methodIndex].methods)
+//@   ensures [C07] own-copy: len(result) > 0 ==> fresh(result)
 
 // addMethods: validation strictly before installation (C17), automatic HEAD/OPTIONS/405 (C08)
 //@ pred reserved(n *node, m string) = m == "OPTIONS" || m == "HEAD" || (n.root.hasTrace && m == "TRACE")
